@@ -121,8 +121,13 @@ def check(ctx):
                    'the tested name differs from the registered name')
             # unconditional: besides the duplicate test only guards that
             # end in a raise for an empty target list are allowed
-            cond = [t for t, pos in other if not has_call(
-                F.atoms(t, a.fn), 'len')]
+            raise_guard = set()
+            for g in F.reach(f, 2):
+                for n in walk_no_nested(g.node):
+                    if isinstance(n, ast.If) and n.body and isinstance(
+                            n.body[-1], ast.Raise):
+                        raise_guard |= {id(x) for x in ast.walk(n.test)}
+            cond = [t for t, pos in other if id(t) not in raise_guard]
             ctx.ob(RULE, 'registration-unconditional|' + short, not cond,
                    a.call, 'a target can pass the duplicate test without '
                    'being registered (the add is conditional): a later rule '
